@@ -2,6 +2,7 @@ package mc
 
 import (
 	"fmt"
+	"regexp"
 	"strings"
 )
 
@@ -83,6 +84,59 @@ func (w *World) monitorDamage() {
 		}
 	} else {
 		w.Violate("C16", "cannot-receive#"+w.damageClass(), "after %s: the broker could not deliver its scripted messages (%d of %d sent)", w.damageLabels(), w.bk.nextIn, len(w.scn.Inbound))
+	}
+}
+
+var hexKey = regexp.MustCompile(`0x[0-9a-f]+`)
+
+// monitorDamageLater: damage is dealt with once. What the adopted client
+// saved afterwards is an intact history again, so an adoption that follows a
+// later stop without damage may warn about the old leftovers as often as it
+// likes, but it must not drop or delete a record written since the damage.
+func (w *World) monitorDamageLater() {
+	lastDamage := -1
+	for _, e := range w.log {
+		if e.K == "damage" {
+			lastDamage = e.Gen
+		}
+	}
+	if lastDamage < 0 {
+		return
+	}
+	savedIn := map[int]int{} // key: generation of the latest record
+	for _, e := range w.log {
+		switch {
+		case e.K == "store" && e.S == "save" && e.R == "":
+			savedIn[e.N] = e.Gen
+		case e.K == "store" && e.S == "delete" && e.R == "":
+			delete(savedIn, e.N)
+		case e.K == "adopt-warn" && e.Gen > lastDamage+1:
+			var keys []int
+			for _, h := range hexKey.FindAllString(e.S, -1) {
+				var k int
+				fmt.Sscanf(h, "0x%x", &k)
+				keys = append(keys, k)
+			}
+			var gone []int
+			switch {
+			case strings.Contains(e.S, "dropped") && len(keys) >= 2:
+				a, b := keys[0], keys[1]
+				if b < a || b-a > 64 {
+					gone = []int{a, b}
+				} else {
+					for k := a; k <= b; k++ {
+						gone = append(gone, k)
+					}
+				}
+			case strings.Contains(e.S, "deleted") && len(keys) >= 1:
+				gone = keys[len(keys)-1:]
+			}
+			for _, k := range gone {
+				if g, ok := savedIn[k]; ok && g > lastDamage {
+					w.Violate("C16", "intact-record-abandoned-later", "generation %d adopted after a stop without damage, yet gave up record %#x, which generation %d wrote after the damage (%s) had been dealt with: %s", e.Gen, k, g, w.damageLabels(), e.S)
+				}
+			}
+		}
 	}
 }
 
@@ -251,6 +305,56 @@ func init() {
 			Final: func(w *World) {
 				w.monitorWire()
 				w.monitorDamage()
+			},
+		}
+	})
+	// damage, then a second stop without: three PUBRELs and two PUBLISHes in
+	// store, so that one damaged PUBREL leaves two abandoned ones behind with
+	// storage sequence numbers above those of the records that are kept
+	register("damagerel2", func() *Scenario {
+		cfg := baseConfig()
+		cfg.ExactlyOnceMax = 8
+		rd := ActorSpec{Name: "reader", Reader: &ReaderSpec{Backoff: true}}
+		var ops []Op
+		for i := 0; i < 5; i++ {
+			ops = append(ops, Op{Kind: "pub2", Topic: fmt.Sprintf("r/%d", i), Msg: []byte(fmt.Sprintf("R%d-rel", i))})
+		}
+		var w0 *World
+		return &Scenario{
+			Config: cfg,
+			Init:   func(w *World) { w0 = w },
+			Actors: []ActorSpec{rd, {Name: "A", Ops: ops}},
+			Gens: [][]ActorSpec{
+				{rd, {Name: "A", Ops: []Op{{Kind: "pub2", Topic: "r/new", Msg: []byte("Rnew-rel")}}}},
+				{rd, {Name: "A", Ops: []Op{{Kind: "pub2", Topic: "r/last", Msg: []byte("Rlast-rel")}}}},
+			},
+			Mute: func(p *Packet) bool {
+				if w0 == nil || w0.gen != 0 {
+					return false
+				}
+				return p.Type == tPUBREL || p.Type == tPUBLISH && (p.Topic == "r/3" || p.Topic == "r/4")
+			},
+			Faults: Faults{Crash: true, Damage: 1, DamageOnce: true, Allow: func(w *World, k string) bool {
+				if k != "crash" {
+					return true
+				}
+				if w.gen == 0 {
+					// once the three PUBRELs are in store next to the two PUBLISHes
+					saves := 0
+					for _, e := range w.log {
+						if e.K == "store" && e.S == "save" && e.R == "" && e.N >= 0xc000 {
+							saves++
+						}
+					}
+					return saves >= 8
+				}
+				return true
+			}},
+			Horizon: 2500,
+			Final: func(w *World) {
+				w.monitorWire()
+				w.monitorDamage()
+				w.monitorDamageLater()
 			},
 		}
 	})
